@@ -652,6 +652,14 @@ private:
     }
   }
 
+  // The boolean variable x is about to be overwritten: any fact "if b
+  // is true then x must be true" refers to the old value of x.
+  void forget_implied_bool(const variable_t &x) {
+    transform_if(m_bool_to_bools,
+		 [&x](const bool_set_t &s) { return s.at(x);},
+		 [&x](bool_set_t &s) { s -= x;});
+  }
+
   
   template<class BoolToCstEnv>
   void propagate_assign_bool_var(BoolToCstEnv &env,
@@ -1288,6 +1296,7 @@ public:
       return;
     }
 
+    forget_implied_bool(x);
     m_product.assign_bool_cst(x, cst);
     reduce_num_cst_to_bool(x, cst);
 
@@ -1309,6 +1318,7 @@ public:
       return;
     }
 
+    forget_implied_bool(x);
     m_product.assign_bool_ref_cst(x, cst);
     reduce_ref_cst_to_bool(x, cst);
     
@@ -1331,6 +1341,9 @@ public:
       return;
     }
 
+    if (!(x == y && !is_negated)) {
+      forget_implied_bool(x);
+    }
     m_product.assign_bool_var(x, y, is_negated);
     propagate_assign_bool_var(m_bool_to_lincsts, x, y, is_negated);
     propagate_assign_bool_var(m_bool_to_refcsts, x, y, is_negated);
@@ -1360,6 +1373,7 @@ public:
       return;
     }
 
+    forget_implied_bool(x);
     m_product.apply_binary_bool(op, x, y, z);
 
     // // --- for reduction from boolean to the numerical domain
@@ -1430,6 +1444,7 @@ public:
       if (b1 == b2) {
 	assign_bool_var(lhs, b1, false);
       } else {
+	forget_implied_bool(lhs);
 	m_product.select_bool(lhs, cond, b1, b2);
 	fwd_reduction_select_bool(lhs, cond, b1, b2);
 	auto val1 = m_product.first().get_bool(b1);
@@ -1444,6 +1459,8 @@ public:
 	  m_bool_to_bools.set(lhs, m_bool_to_bools.at(b2) & bool_set_t(b2));
 	  // TODO: we don't handle negative booleans in
 	  // m_bool_to_bools so we don't add not(cond)
+	} else {
+	  m_bool_to_bools -= lhs;
 	}
       }
     }
